@@ -253,3 +253,24 @@ pub fn d_raw_json(d: &Dyadic) -> Value {
     let (s, m, e, a) = d.verif_raw();
     json!({"neg": s, "m": m.to_string(), "e": e, "ap": a})
 }
+
+/// Rename vertices to their rank (order-preserving); used to compare results of the two
+/// backends when one of them compacted its names.
+pub fn canon(a: &Value) -> Value {
+    let ids: Vec<u64> = a["v"].as_array().unwrap().iter().map(|v| v["id"].as_u64().unwrap()).collect();
+    let rank = |x: u64| ids.iter().position(|y| *y == x).map(|p| p as u64).unwrap_or(x + 1_000_000);
+    let mut b = a.clone();
+    for v in b["v"].as_array_mut().unwrap() {
+        v["id"] = json!(rank(v["id"].as_u64().unwrap()));
+    }
+    for e in b["e"].as_array_mut().unwrap() {
+        e["u"] = json!(rank(e["u"].as_u64().unwrap()));
+        e["w"] = json!(rank(e["w"].as_u64().unwrap()));
+    }
+    for key in ["ins", "outs"] {
+        for x in b[key].as_array_mut().unwrap() {
+            *x = json!(rank(x.as_u64().unwrap()));
+        }
+    }
+    b
+}
